@@ -135,7 +135,14 @@ def run(ctx, pid):
         return ("real code disagrees with MutableFile.tla at event %d (%s) of a %s %s trace: clause %s; observed %s" %
                 (l, e["ev"], tr["consts"]["fmt"], tr["consts"]["scen"], clause,
                  json.dumps({k: v for k, v in e.items() if k not in ("L", "how")})[:300]))
-    ctx.trace("mutable/TraceMutableFile", traces, cfg=cfg, key_of=key_of, what_of=what_of, batch=250)
+    # the encoding (K, N) is a constant of the Spec: one TLC run per encoding that occurs in the batch
+    groups = {}
+    for tr in traces:
+        groups.setdefault((tr["consts"]["K"], tr["consts"]["N"]), []).append(tr)
+    for (kk, nn), grp in sorted(groups.items()):
+        gcfg_t = cfg.replace("K = 2", "K = %d" % kk).replace("N = 3", "N = %d" % nn)
+        ctx.trace("mutable/TraceMutableFile", grp, cfg=gcfg_t, key_of=key_of, what_of=what_of, batch=250,
+                  name="TRACE mutable/TraceMutableFile (K=%d, N=%d)" % (kk, nn))
     if not quick:
         # replay of Spec-enumerated layouts: every layout within MaxMods slots of the plain placement
         gcfg = ("SPECIFICATION Spec\nCONSTANTS\n  K = 2\n  N = 3\n  MaxMods = 2\n"
